@@ -5,39 +5,39 @@ import json, subprocess, sys
 TECH = "deterministic simulation with fault injection: seeded search over schedules and fault sequences (synctest bubble + seeded Go runtime overlay + simnet), oracles on every read / every network event / recorded history"
 
 CHECKS = {
- "C01": ("exploration", "§3 C01", "Seeded search over many short, diverse whole-system runs of the real client/server stack on a simulated TCP network: every Read at either end is compared offset-exactly with a PRF stream, under random re-chunking, back-pressure, multiplexing, traffic patterns and handshake modes. Sampling, not proof: right for a property quantified over schedules, chunkings and configurations that no finite enumeration covers.",
+ "C01": ("exploration", "§3 C01", "Seeded search over many short, diverse whole-system runs of the real client/server stack on a simulated TCP network: every Read at either end is compared offset-exactly with a PRF stream, under random re-chunking, back-pressure, multiplexing, traffic patterns and handshake modes. Sampling, not proof: right for a property quantified over schedules, chunkings and configurations that no finite enumeration covers. Applications reuse their buffers after Write; a third of the runs take connections straight from protocol.Mux (first write on the open request); slow-consumer runs fill the 4096-segment receive queue.",
          "simnet's TCP model (ordered reliable byte stream, arbitrary chunking, bounded buffers); refproto tap; go1.26.8 runtime overlay"),
- "C02": ("exploration", "§3 C02", "Same stream oracle over the UDP transport with datagram loss, duplication, delay/reordering, corruption, bursts, partitions and targeted faults on named datagrams, plus a bounded-progress oracle after the recorded heal instant under explicit fairness budgets.",
+ "C02": ("exploration", "§3 C02", "Same stream oracle over the UDP transport with datagram loss, duplication, delay/reordering, corruption, bursts, partitions and targeted faults on named datagrams, plus a bounded-progress oracle after the recorded heal instant under explicit fairness budgets. Buffer reuse, raw-multiplexer connections and slow consumers as in C01.",
          "the fairness budgets recorded in each spec define 'fair share'; simnet's UDP model"),
  "C03": ("exploration", "§3 C03", "Write-then-close scripts on both transports and both roles with faults aimed at the datagrams in flight at close time; oracle: all bytes before EOF, or an error - never EOF after a strict prefix.",
          "only the direction written by the closing side is judged"),
- "C04": ("fault_enumeration", "§3 C04", "One in-path mutation per run, positions enumerated from the byte geometry that the reference decoder recorded in a fault-free reference pass of the same seed: every segment x field class x offsets x {flip, substitute, insert, delete, truncate} plus whole-segment swap/duplicate/remove/splice; random shapes on top. Oracle: delivered bytes are a prefix (TCP) / the intact stream (UDP); no crash. Exhaustive for the stated positions of the listed shapes (thorough tier), shapes sampled.",
+ "C04": ("fault_enumeration", "§3 C04", "One in-path mutation per run, positions enumerated from the byte geometry that the reference decoder recorded in a fault-free reference pass of the same seed: every segment x field class x offsets x {flip, substitute, insert, delete, truncate} plus whole-segment swap/duplicate/remove/splice; random shapes on top. Oracle: delivered bytes are a prefix (TCP) / the intact stream (UDP); no crash. Exhaustive for the stated positions of the listed shapes (thorough tier), shapes sampled. UDP also: whole-datagram duplicate/drop/reorder, reflection into the opposite direction of the same session, splices from a session in progress on another flow.",
          "determinism (one seed = one execution) makes the reference geometry valid up to the mutation point; only causal splices (source emitted before the target) are generated"),
- "C05": ("fault_enumeration", "§3 C05", "Attacker actors without a credential beside genuine traffic; enumerated: every prefix and single-bit mutation of a genuine first segment (TCP and UDP), plus random strings, truncations and reference-encoded handshakes under foreign credentials / stolen hints. Oracle over the whole run: zero bytes or datagrams from the server to an attacker address, no Accept, no session, genuine workload intact.",
+ "C05": ("fault_enumeration", "§3 C05", "Attacker actors without a credential beside genuine traffic; enumerated: every prefix and single-bit mutation of a genuine first segment (TCP and UDP), plus random strings, truncations and reference-encoded handshakes under foreign credentials / stolen hints. Oracle over the whole run: zero bytes or datagrams from the server to an attacker address, no Accept, no session, genuine workload intact. On-path variant: the genuine first segment is swallowed and a truncation of it sent from elsewhere (one victim per truncation); bit flips presented after the copied session has ended and been forgotten.",
          "attackers are identified by source address; copies of genuine traffic are presented only after the server has answered the original (otherwise the copy is the original)"),
- "C06": ("exploration", "§3 C06", "Replayer actors re-send recorded genuine TCP streams / prefixes / first segments and UDP datagrams from other addresses 0 s - 5 min later, before/after the original ended, concurrently with fresh dials, with the replay caches rebased onto the virtual clock; zero-reply / no-Accept / no-session oracle. Second scenario: ReplayCache operation histories under the virtual clock against an ideal bounded-memory set.",
+ "C06": ("exploration", "§3 C06", "Replayer actors re-send recorded genuine TCP streams / prefixes / first segments and UDP datagrams from other addresses 0 s - 5 min later, before/after the original ended, concurrently with fresh dials, with the replay caches rebased onto the virtual clock; zero-reply / no-Accept / no-session oracle. Second scenario: ReplayCache operation histories under the virtual clock against an ideal bounded-memory set. Directed histories around expiry instants; a sixth of the runs repeated under the race detector (races inside pkg/replay count).",
          "replays are byte-exact; the cache model mirrors only the documented capacity/interval contract"),
- "C07": ("exploration", "§3 C07", "serveruser.Registry driven by a cooperative scheduler on guarded yield sites (exact, seed-chosen interleavings of 1-3 discovery actors, cache recording and a reload actor) over user universes with re-keyed and shared credentials, colliding cache sources, hint-mandatory toggles and cache ageing; the recorded history is checked with porcupine against a reference decision that ignores caches and sources. End-to-end attribution is asserted in whole-system runs.",
+ "C07": ("exploration", "§3 C07", "serveruser.Registry driven by a cooperative scheduler on guarded yield sites (exact, seed-chosen interleavings of 1-3 discovery actors, cache recording and a reload actor) over user universes with re-keyed and shared credentials, colliding cache sources, hint-mandatory toggles and cache ageing; the recorded history is checked with porcupine against a reference decision that ignores caches and sources. End-to-end attribution is asserted in whole-system runs. Hint collisions are generated (birthday search); discoveries that must be current linearize after their last attempt.",
          "hook H2 (yield sites, bucket index); the reference decision uses refproto's key derivation; porcupine Unknown is never reported"),
- "C08": ("exploration", "§3 C08", "A reference peer with an explicit, skewed and jumping clock talks to a real endpoint in both roles and on both transports: accept grid |d| <= 60 s (minus flight time) around key-slot changes and minute ticks must handshake and echo; refuse grid (timestamp >= 2 min off, key >= 4 min off, both) must get nothing. Key-cache lookup histories with non-monotonic instants are checked against the reference derivation (exactly the three candidate slots, never another).",
+ "C08": ("exploration", "§3 C08", "A reference peer with an explicit, skewed and jumping clock talks to a real endpoint in both roles and on both transports: accept grid |d| <= 60 s (minus flight time) around key-slot changes and minute ticks must handshake and echo; refuse grid (timestamp >= 2 min off, key >= 4 min off, both) must get nothing. Key-cache lookup histories with non-monotonic instants are checked against the reference derivation (exactly the three candidate slots, never another). Plus idle-before-first-write runs (real client and server, 1 s .. 1 h between dial and first write over TCP).",
          "the skewed party is always the reference peer; refproto is the trusted base; hook H3 exposes the cache's explicit-time entry points"),
- "C09": ("exploration", "§3 C09", "Direction 1: every segment emitted by real endpoints in C01/C02/C03-style runs must decode with the independent reference codec. Direction 2: reference client vs real server and real client vs reference server, using every documented freedom (padding 0..255, all low-entropy modes/rotations/padding bits, maximal payloads, piggy-backed open payload up to 1024, ack-only segments); the application must get exactly the bytes.",
+ "C09": ("exploration", "§3 C09", "Direction 1: every segment emitted by real endpoints in C01/C02/C03-style runs must decode with the independent reference codec. Direction 2: reference client vs real server and real client vs reference server, using every documented freedom (padding 0..255, all low-entropy modes/rotations/padding bits, maximal payloads, piggy-backed open payload up to 1024, ack-only segments); the application must get exactly the bytes. User names up to 64 bytes; every emitted nonce must carry the documented user hint; the reference server may piggyback on its open-session response.",
          "refproto shares no code with /repo and was written from docs/protocol.md only; loss-free link for the UDP reference peers"),
- "C10": ("exploration", "§3 C10", "A hostile peer with a valid credential emits reference-encoded segments with arbitrary types, session ids (incl. other users' established sessions), sequence/ack/window/length/low-entropy fields on both transports, mixed with the unauthenticated corpus, while another user's sessions run. Oracle: the worker process survives (panic/fatal = violation with the first mieru frame as signature) and the victim's stream oracle holds.",
+ "C10": ("exploration", "§3 C10", "A hostile peer with a valid credential emits reference-encoded segments with arbitrary types, session ids (incl. other users' established sessions), sequence/ack/window/length/low-entropy fields on both transports, mixed with the unauthenticated corpus, while another user's sessions run. Oracle: the worker process survives (panic/fatal = violation with the first mieru frame as signature) and the victim's stream oracle holds. Every fifth run: the production stack forwards requests to a hostile SOCKS5 egress proxy (UDP associations, resets/closes around its reply, malformed replies, silence).",
          "one OS process per run makes a crash observable and attributable to a seed; hostile servers against real clients are not simulated"),
- "C18": ("exploration", "§3 C18", "UDP associations through the production server stack over a re-chunked TCP carrier or a lossy UDP carrier: datagrams of size 0..65507 full of marker bytes to several IPv4/IPv6/domain destinations that echo; malformed frames and undersized buffers injected. Oracle: per destination the received sequence equals the sent one, every datagram arrives where its header says, every echo names the replying host and carries the same bytes, errors - never garbage - after a framing violation.",
+ "C18": ("exploration", "§3 C18", "UDP associations through the production server stack over a re-chunked TCP carrier or a lossy UDP carrier: datagrams of size 0..65507 full of marker bytes to several IPv4/IPv6/domain destinations that echo; malformed frames and undersized buffers injected. Oracle: per destination the received sequence equals the sent one, every datagram arrives where its header says, every echo names the replying host and carries the same bytes, errors - never garbage - after a framing violation. Frames also written in pieces cut inside the frame header.",
          "loss-free, order-preserving egress UDP in the simulation; truncated frames are generated only as the last write of an association (they cannot be told apart otherwise)"),
- "C19": ("exploration", "§3 C19", "Counter operation histories (adds in bursts, sleeps from 1 us to 30 days across every roll-up age, loads, windows, dump/restart/load with intact and torn files) against a list-of-increments model under the virtual clock; and whole-system quota runs where a user crosses its allowance and then opens new sessions next to other users: per-user counters equal what the server application read/wrote, over-quota sessions are refused with the quota status and never reach Server.Accept, everyone else is served.",
+ "C19": ("exploration", "§3 C19", "Counter operation histories (adds in bursts, sleeps from 1 us to 30 days across every roll-up age, loads, windows, dump/restart/load with intact and torn files) against a list-of-increments model under the virtual clock; and whole-system quota runs where a user crosses its allowance and then opens new sessions next to other users: per-user counters equal what the server application read/wrote, over-quota sessions are refused with the quota status and never reach Server.Accept, everyone else is served. Snapshots held across compactions; dumps loaded by a process that never saw the group.",
          "loose reading of the allowance around the threshold; real temporary file for the dump"),
- "C11": ("fault_enumeration", "§3 C11", "SOCKS5 negotiations against the real front end over a simulated connection: every method list of length <= 3 (4 in the thorough tier) over {0x00,0x01,0x02,0x80,0xFF} x credential configuration x placement x sub-negotiation variant is enumerated; random long lists, blind pipelining, truncation at every byte, stalls past the handshake timeout and tiny write chunks are sampled. Oracle: the request is served iff a configured pair was presented (or none is configured and no-auth was offered).",
+ "C11": ("fault_enumeration", "§3 C11", "SOCKS5 negotiations against the real front end over a simulated connection: every method list of length <= 3 (4 in the thorough tier) over {0x00,0x01,0x02,0x80,0xFF} x credential configuration x placement x sub-negotiation variant is enumerated; random long lists, blind pipelining, truncation at every byte, stalls past the handshake timeout and tiny write chunks are sampled. Oracle: the request is served iff a configured pair was presented (or none is configured and no-auth was offered). Wrong credentials include every cross pairing of configured names and passwords.",
          "'served' is observed at ProxyDialer.DialContext (client placement) or at the proxy server's dial through vnet (server placement)"),
  "C12": ("exploration", "§3 C12", "The production server stack (Mux + socks5.Server) runs against a simulated OS network that interprets and records every dial target and datagram destination as an OS would; users with and without the loopback/private grants send CONNECT / UDP-ASSOCIATE requests and per-datagram headers drawn from an enumerated table of destination encodings, under random egress rule lists. Oracle: reply 0x02 and nothing reaches a loopback/private host without the grant; granted and public traffic is served; first matching rule wins.",
          "the stub OS semantics (empty host / unspecified address reach the local machine; case-insensitive hosts table) are the stated assumption of this check"),
  "C13": ("exploration", "§3 C13", "Wire-tap invariants evaluated on every datagram of C02/C03-style runs with the independent reference decoder: cumulative ack <= in-order prefix delivered to the acker; retransmissions identical in type/fragment/payload; first transmissions gapless from 0.",
          "refproto (written from docs/protocol.md) is the trusted base; simnet delivery events are ground truth for 'received'"),
- "C14": ("exploration", "§3 C14", "Wire-tap invariants on every datagram/segment of runs sweeping MTU x padding x low-entropy mode x write sizes x fault profiles (retransmissions, acks, control segments): datagram <= sender MTU, documented length limits.",
+ "C14": ("exploration", "§3 C14", "Wire-tap invariants on every datagram/segment of runs sweeping MTU x padding x low-entropy mode x write sizes x fault profiles (retransmissions, acks, control segments): datagram <= sender MTU, documented length limits. Half of the UDP runs are size sweeps around one and two maximal paddings of room.",
          "refproto is the trusted base"),
- "C15": ("exploration", "§3 C15", "Independent actor goroutines on both ends of 1-4 sessions issue Write/Read/SetDeadline/Close concurrently, with client Stop, server Stop, TCP reset / black-hole and UDP black-hole at seeded instants; oracles over the recorded call history (bounded return of Close/Stop and of every call blocked on an affected connection, deadlines bound every call until changed, no timeout without a user deadline), a goroutine-profile leak check 5 virtual minutes after both ends stopped, the virtual-time cap as deadlock detector, and a race-detector pass over a sixth of the runs.",
+ "C15": ("exploration", "§3 C15", "Independent actor goroutines on both ends of 1-4 sessions issue Write/Read/SetDeadline/Close concurrently, with client Stop, server Stop, TCP reset / black-hole and UDP black-hole at seeded instants; oracles over the recorded call history (bounded return of Close/Stop and of every call blocked on an affected connection, deadlines bound every call until changed, no timeout without a user deadline), a goroutine-profile leak check 5 virtual minutes after both ends stopped, the virtual-time cap as deadlock detector, and a race-detector pass over a sixth of the runs. Profiles: plain close, back-pressure, deadlines, stop (half of them inside a dial), underlay failure, stop/reset under back-pressure, one-way use; 0-RTT and raw-multiplexer connections.",
          "single-P schedules: races are found by happens-before analysis, not true parallelism; silent TCP failures are left to the (unmodelled) kernel"),
  "C16": ("exploration", "§3 C16", "Configuration checks (Validate/NewConfig/Effective/Encode-Decode) on every generated pattern plus wire-tap checks of padding maxima, nonce prefix, TCP fragmentation and low-entropy rules against Effective() in whole-system runs.",
          "implicit values are held to Config.Effective(); refproto is the trusted base"),
